@@ -74,6 +74,44 @@ def run(ctx):
         for k, (bi, t) in util.ordinal_keys(bad, lambda it: "%s|%s" % (np_.split("::{closure")[0], norm_fn(it[1].get("res") or it[1].get("fn")).split("::")[-1])):
             ctx.ob("S1b", k, False, t["sp"], "the transaction reads the document through ReadDoc::%s, which has no clock: inside an isolated transaction it sees the state at the current heads, not at the chosen heads" % norm_fn(t.get("res") or t.get("fn")).split("::")[-1])
     ctx.ob("S1b", "transaction::inner|no unscoped ReadDoc call", True, "", "%d functions scanned" % n_fns, nontrivial=False)
+    # ---------------- S1c: the diff-based reconcilers (update_text / update_spans) run inside the transaction too
+    ctx.rule("S1c", "text_diff (update_text / update_spans): every Option<Clock> argument derives from TransactionInner::get_scope(), and no <Automerge as ReadDoc> method is called")
+    n_td, n_clk = 0, 0
+    for p, r in sorted(f.fns.items()):
+        np_ = norm_fn(p)
+        if r["ckey"] != ("automerge", "lib") or "automerge::text_diff::" not in np_:
+            continue
+        head = np_.split(" as ")[0].lstrip("<")
+        if any(head.startswith("automerge::text_diff::%s::" % m) for m in ("myers", "replace", "utils")):
+            continue
+        n_td += 1
+        b = cfg.body(r)
+        uses_tx = any("TransactionInner" in b.local_ty(i) for i in range(1, b.argc + 1))
+        sites, bad = [], []
+        for bi, t in b.calls():
+            tgt = norm_fn(t.get("res") or t.get("fn")) or ""
+            if "automerge::automerge::Automerge as automerge::read::ReadDoc>::" in tgt:
+                bad.append((bi, t))
+            if not tgt.startswith("automerge::"):
+                continue
+            for i, ty in enumerate(t.get("argtys", [])):
+                if "automerge::clock::Clock" in ty and "Option" in ty:
+                    sites.append((bi, t, i))
+        for k, (bi, t) in util.ordinal_keys(bad, lambda it: "%s|%s" % (np_.split("::{closure")[0], norm_fn(it[1].get("res") or it[1].get("fn")).split("::")[-1])):
+            ctx.ob("S1c", k, False, t["sp"], "the reconciler reads the document through ReadDoc::%s (current heads) inside a transaction that may be isolated" % norm_fn(t.get("res") or t.get("fn")).split("::")[-1])
+        if not uses_tx:
+            continue                # helpers that receive the clock as a parameter are checked at their callers
+        ctx.analysed_fns.add(p)
+        for k, (bi, t, i) in util.ordinal_keys(sites, lambda s_: "%s|%s" % (np_, norm_fn(s_[1].get("res") or s_[1].get("fn")).split("::")[-1])):
+            n_clk += 1
+            pv = b.provenance(t["args"][i], through_calls=True)
+            from_scope = any(norm_fn(c) == TI + "get_scope" for c in pv.callees())
+            lit_none = any(a == "core::option::Option" and v == "None" for a, v in pv.aggs)
+            ok = from_scope and not lit_none
+            ctx.ob("S1c", k, ok, t["sp"], "clock argument is tx.get_scope()" if ok else
+                   "the clock handed to %s is not the transaction's scope (from get_scope: %s, literal None: %s): under isolation the reconciler diffs against the document outside the chosen heads" % (norm_fn(t.get("res") or t.get("fn")).split("::")[-1], from_scope, lit_none))
+    ctx.floor("text_diff functions scanned", n_td, 15)
+    ctx.floor("clock arguments passed by the text_diff reconcilers", n_clk, 5)
     ctx.floor("functions of transaction::inner scanned for unscoped reads", n_fns, 60)
     # ---------------- S2
     n_ctor = 0
